@@ -20,7 +20,7 @@ PROPERTY = dict(
 )
 FW = 'ahrs.utils.wmm:WMM.'
 DATE = 2022.5
-PLACES_QUICK = [(45.0, 60.0), (0.0, 60.0), (45.0, 0.0), (-45.0, 180.0)]
+PLACES_QUICK = [(45.0, 60.0), (0.0, 60.0), (45.0, 0.0), (-45.0, 180.0), (0.0, 0.0)]
 PLACES_ALL = [(la, lo) for la in (0.0, 45.0, -45.0, 90.0, -90.0) for lo in (0.0, 60.0, 180.0)]
 
 
@@ -52,6 +52,13 @@ def _mk_path(lat, lon, tiers):
         v = WMM(date=DATE, latitude=12.0, longitude=34.0)
         v.magnetic_field(lat, lon, hgt, date=None)
         h.check('second query with date=None == fresh object', h.eq(_xyz(v), R))
+        # the same with a decimal date that is not a whole tenth (2021.349): date=None must keep that date's answer
+        d2 = 2021.349
+        r2 = WMM(date=d2, latitude=12.0, longitude=34.0)
+        r2.magnetic_field(lat, lon, hgt, date=d2)
+        v2 = WMM(date=d2, latitude=12.0, longitude=34.0)
+        v2.magnetic_field(lat, lon, hgt, date=None)
+        h.check('date=None keeps the object\'s decimal date (2021.349)', h.eq(_xyz(v2), _xyz(r2)))
         # (iii) frames
         e = WMM(date=DATE, latitude=12.0, longitude=34.0, frame='ENU')
         e.magnetic_field(lat, lon, hgt, date=DATE)
